@@ -384,3 +384,36 @@ func verifRunSchedule(out *verifOut, si, n, npollers int, rng *verifRng, sizes [
 	mu.Unlock()
 	out.emit(map[string]interface{}{"kind": "schedule", "index": si, "clients": n, "pollers": npollers, "results": results, "events": evs})
 }
+
+// TestVerifServerIDs: the request IDs drawn by several proxy instances created one after the other (a restarted or
+// replaced proxy behind the same address, with the same agent still running and remembering the IDs it has seen):
+// within an instance and across instances no ID may repeat.
+func TestVerifServerIDs(t *testing.T) {
+	out := verifOpenOut(t)
+	defer out.close()
+	const instances, per = 4, 500
+	seen := map[string]int{}
+	within, across := 0, 0
+	var sample []string
+	for i := 0; i < instances; i++ {
+		p := newProxy()
+		mine := map[string]bool{}
+		for k := 0; k < per; k++ {
+			id := p.newID()
+			if mine[id] {
+				within++
+			} else if _, ok := seen[id]; ok {
+				across++
+				if len(sample) < 5 {
+					sample = append(sample, id)
+				}
+			}
+			mine[id] = true
+		}
+		for id := range mine {
+			seen[id] = i
+		}
+		time.Sleep(2 * time.Millisecond)
+	}
+	out.emit(map[string]interface{}{"kind": "ids", "instances": instances, "per_instance": per, "distinct": len(seen), "repeated_within_an_instance": within, "repeated_across_instances": across, "sample": sample})
+}
